@@ -194,22 +194,25 @@ impl TypeCollector {
             .collect();
 
         // Different commands can map to the same identifiers (`ping` / `_ping`, `hash_sha256` /
-        // `hash_sha_256`): number the later ones so that every command keeps its own wrapper
-        // and its own parameter type
-        let mut used_names = std::collections::HashSet::new();
+        // `hash_sha_256`), and a project type can be named like the parameter type of a command
+        // (`fn create_user(params: CreateUserParams)`): number the later one so that every command
+        // keeps its own wrapper and its own parameter type
+        let mut used_functions = std::collections::HashSet::new();
+        let mut used_types: std::collections::HashSet<String> =
+            self.known_structs.keys().cloned().collect();
         for context in &mut contexts {
             let base_function = context.ts_function_name.clone();
+            let mut counter = 2;
+            while !used_functions.insert(context.ts_function_name.clone()) {
+                context.ts_function_name = format!("{}{}", base_function, counter);
+                counter += 1;
+            }
             let base_type = context.ts_type_name.clone();
             let mut counter = 2;
-            while used_names.contains(&context.ts_function_name)
-                || used_names.contains(&context.ts_type_name)
-            {
-                context.ts_function_name = format!("{}{}", base_function, counter);
+            while !used_types.insert(format!("{}Params", context.ts_type_name)) {
                 context.ts_type_name = format!("{}{}", base_type, counter);
                 counter += 1;
             }
-            used_names.insert(context.ts_function_name.clone());
-            used_names.insert(context.ts_type_name.clone());
         }
 
         contexts
